@@ -2,8 +2,7 @@ import CssVerif.Lemmas.StrCodec
 import CssVerif.Lemmas.StrExact
 import CssVerif.Gen.C03Productions
 import CssVerif.Gen.C05Productions
-import CssVerif.Lemmas.SheetCanonIdem
-import CssVerif.Lemmas.SheetCanonWF
+import CssVerif.Lemmas.SheetCanonPrune
 import CssVerif.Props.C02
 /-!
 # C03 — serialise-then-parse is lossless; serialisation is a fixpoint (content codecs)
@@ -185,21 +184,23 @@ example : Gen.C03.stringRe = Gen.C05.reSTRING ∧ Gen.C03.uriRe = Gen.C05.reURI 
 /-! ## sheet level (structure): parse ∘ serialise is the identity, serialise is a fixpoint
 
 Models: `Model/SheetCanon.lean` — `canon s`, the spelling `CSSSerializer` (default preferences) gives to the sheet parsed
-from the spelled sheet `s` (line separators, indentation, `;` placement, declarations before margin boxes, keyword
-and name case, quote style of targets), `serialise s = render (canon s)`, the tokens of `sheet.cssText` — on top of
-C02's structure kernel (`Model/Struct.lean`, `Model/AtRules.lean`, `Model/SheetSpec.lean`) and C02's theorem
-`parse_render`.  Every abstract sheet is `s.erase` of its spellings `s`, so `∀ s` below is `∀ abstract sheet, ∀ source
-spelling of it`.  Hypotheses: `s.WF O M` (C02: the source is a well-formed sheet in the sense of `parse_render`);
-`HrefSafe s` (targets without a backslash: the content-level `Safe` of the first part of this file);
-`Accepts O (canon s)` (the selector / value / media-query parsers accept these parts with the blanks and comments the
-serializer puts around them: C16 / C17 / C18); `TidyL (render s)` (tokens typed S or COMMENT are no brackets: a
-tokenizer invariant that the abstract token type does not enforce).  Tie: `tools/harness/c03_canon.py` — `serialise s`
-= the real tokenizer on the real `cssText`, token by token, for generated spelled sheets of every rule kind. -/
+from the spelled sheet `s`: the rules that serialise to nothing are left out (`prune`: `keepEmptyRules = False`), the
+others are laid out (line separators, indentation, `;` placement, declarations before margin boxes, keyword and name
+case, quote style of targets); `serialise s = render (canon s)`, the tokens of `sheet.cssText` — on top of C02's
+structure kernel (`Model/Struct.lean`, `Model/AtRules.lean`, `Model/SheetSpec.lean`) and C02's theorem `parse_render`.
+Every abstract sheet is `s.erase` of its spellings `s`, so `∀ s` below is `∀ abstract sheet, ∀ source spelling of it`.
+Hypotheses: `s.WF O M` (C02: the source is a well-formed sheet in the sense of `parse_render`); `HrefSafe s` (targets
+without a backslash: the content-level `Safe` of the first part of this file); `Accepts O (canon s)` (the selector /
+value / media-query parsers accept these parts with the blanks and comments the serializer puts around them: C16 / C17 /
+C18); `TidyL (render s)` (tokens typed S or COMMENT are no brackets: a tokenizer invariant that the abstract token type
+does not enforce).  Tie: `tools/harness/c03_canon.py` — `serialise s` = the real tokenizer on the real `cssText`, token
+by token, for generated spelled sheets of every rule kind, empty rules included. -/
 open CssVerif.SheetSpec CssVerif.Struct CssVerif.AtRules CssVerif.SheetCanon
 
-/-- T3.S0: what the serializer writes denotes the abstract sheet of the source — every rule in order with its selector
-groups, declarations (name, value, priority), media queries, import target, namespace binding, comments. -/
-theorem canon_erase (s : SSheet) : (canon s).erase = s.erase := canon_erase_aux s
+/-- T3.S0: what the serializer writes denotes the abstract sheet of the source without the rules that are not written —
+every other rule in order with its selector groups, declarations (name, value, priority), media queries, import target,
+namespace binding, comments. -/
+theorem canon_erase (s : SSheet) : (canon s).erase = (prune s).erase := canon_erase_aux s
 
 /-- T3.S1: what the serializer writes is again a well-formed sheet in the sense of `parse_render`. -/
 theorem canon_wf (O : Oracle) (M : List Cps) (s : SSheet) (h : s.WF O M) (hs : HrefSafe s)
@@ -207,34 +208,42 @@ theorem canon_wf (O : Oracle) (M : List Cps) (s : SSheet) (h : s.WF O M) (hs : H
   canon_wf_aux O M s h hs ha ht
 
 /-- **T3.S2 parse_serialise** (`parse (serialise s) = s` at structure level): the DOM projection of what the parser
-builds from the serialisation is the abstract sheet — the same rules in the same order, selectors, declarations,
-values, priorities, media, import targets, namespace bindings, comments at rule and declaration level. -/
+builds from the serialisation is the abstract sheet (without the rules that serialise to nothing) — the same rules in
+the same order, selectors, declarations, values, priorities, media, import targets, namespace bindings, comments at rule
+and declaration level. -/
 theorem parse_serialise (O : Oracle) (M : List Cps) (hO : AtFaithful O) (s : SSheet) (h : s.WF O M) (hs : HrefSafe s)
     (ha : Accepts O (canon s)) (ht : TidyL (render s)) :
-    projSheet O M (parseSheet O M (serialise s)) = s.erase := by
+    projSheet O M (parseSheet O M (serialise s)) = (prune s).erase := by
   unfold serialise
   rw [C02.parse_render O M hO (canon s) (canon_wf_aux O M s h hs ha ht), canon_erase_aux]
 
-/-- the reparsed sheet has the DOM projection of the sheet parsed from the source -/
-theorem reparse_same_dom (O : Oracle) (M : List Cps) (hO : AtFaithful O) (s : SSheet) (h : s.WF O M) (hs : HrefSafe s)
-    (ha : Accepts O (canon s)) (ht : TidyL (render s)) :
-    projSheet O M (parseSheet O M (serialise s)) = projSheet O M (parseSheet O M (render s)) := by
-  rw [parse_serialise O M hO s h hs ha ht, C02.parse_render O M hO s h]
+/-- when every rule of the sheet is written (`prune s = s`: no empty block, no `@media` without a written rule), the
+reparsed sheet has exactly the abstract sheet of the source … -/
+theorem parse_serialise_visible (O : Oracle) (M : List Cps) (hO : AtFaithful O) (s : SSheet) (h : s.WF O M)
+    (hs : HrefSafe s) (ha : Accepts O (canon s)) (ht : TidyL (render s)) (hv : prune s = s) :
+    projSheet O M (parseSheet O M (serialise s)) = s.erase := by
+  rw [parse_serialise O M hO s h hs ha ht, hv]
 
-/-- all spellings of one abstract sheet are serialised to texts that parse to that abstract sheet -/
+/-- … which is the DOM projection of the sheet parsed from the source -/
+theorem reparse_same_dom (O : Oracle) (M : List Cps) (hO : AtFaithful O) (s : SSheet) (h : s.WF O M) (hs : HrefSafe s)
+    (ha : Accepts O (canon s)) (ht : TidyL (render s)) (hv : prune s = s) :
+    projSheet O M (parseSheet O M (serialise s)) = projSheet O M (parseSheet O M (render s)) := by
+  rw [parse_serialise_visible O M hO s h hs ha ht hv, C02.parse_render O M hO s h]
+
+/-- all spellings of one abstract sheet are serialised to texts that parse to the same abstract sheet -/
 theorem serialise_spelling_invariant (O : Oracle) (M : List Cps) (hO : AtFaithful O) (s₁ s₂ : SSheet)
     (h₁ : s₁.WF O M) (h₂ : s₂.WF O M) (hs₁ : HrefSafe s₁) (hs₂ : HrefSafe s₂)
     (ha₁ : Accepts O (canon s₁)) (ha₂ : Accepts O (canon s₂)) (ht₁ : TidyL (render s₁)) (ht₂ : TidyL (render s₂))
-    (he : s₁.erase = s₂.erase) :
+    (he : (prune s₁).erase = (prune s₂).erase) :
     projSheet O M (parseSheet O M (serialise s₁)) = projSheet O M (parseSheet O M (serialise s₂)) := by
   rw [parse_serialise O M hO s₁ h₁ hs₁ ha₁ ht₁, parse_serialise O M hO s₂ h₂ hs₂ ha₂ ht₂, he]
 
-/-- T3.S3: writing what was written changes nothing (no hypothesis) -/
+/-- T3.S3: writing what was written changes nothing (no hypothesis): nothing more is left out, the layout is the same -/
 theorem canon_idem (s : SSheet) : canon (canon s) = canon s := canon_idem_aux s
 
 /-- **T3.S3 serialise_fixpoint** (`serialise (parse (serialise s)) = serialise s`): the sheet parsed from the
-serialisation is the sheet of the spelled sheet `canon s` (`parseSheet_render`: the parse of `render t` is `t.parsed`),
-and serialising that gives the same tokens again. -/
+serialisation is the sheet of the spelled sheet `canon s` (`parse_of_serialise` below), and serialising that gives the
+same tokens again. -/
 theorem serialise_fixpoint (s : SSheet) : serialise (canon s) = serialise s := by
   unfold serialise; rw [canon_idem_aux]
 
@@ -244,11 +253,15 @@ theorem parse_of_serialise (O : Oracle) (M : List Cps) (hO : AtFaithful O) (s : 
     parseSheet O M (serialise s) = (canon s).parsed O :=
   parseSheet_render O M hO (canon s) (canon_wf_aux O M s h hs ha ht)
 
-/-- second round: the second serialisation reparses to the abstract sheet as well -/
+/-- second round: the second serialisation reparses to the same abstract sheet as the first -/
 theorem parse_second_serialisation (O : Oracle) (M : List Cps) (hO : AtFaithful O) (s : SSheet) (h : s.WF O M)
     (hs : HrefSafe s) (ha : Accepts O (canon s)) (ht : TidyL (render s)) :
-    projSheet O M (parseSheet O M (serialise (canon s))) = s.erase := by
+    projSheet O M (parseSheet O M (serialise (canon s))) = (prune s).erase := by
   rw [serialise_fixpoint, parse_serialise O M hO s h hs ha ht]
+
+/-- nothing that is written is left out the second time -/
+theorem prune_canon (s : SSheet) : prune (canon s) = canon s :=
+  prune_canonV _ (prune_idem s)
 
 /-! non-vacuity: the example sheet of C02 (every rule kind, comments in gaps, upper case, escapes, both quote styles) -/
 example : HrefSafe C02.Ex2.sheet := by
@@ -258,7 +271,11 @@ example : Accepts C02.Ex2.O (canon C02.Ex2.sheet) :=
   accepts_of_yes _ (fun _ => rfl) (fun _ _ => rfl) (fun _ => rfl) (fun _ => rfl) _
 example : TidyL (render C02.Ex2.sheet) := by unfold TidyL; decide +kernel
 
-/-- a test (evaluation), not a theorem: the serialisation of the example sheet has 8 rules again -/
+/-- tests (evaluation), not theorems: every rule of the example sheet is written; its serialisation has 8 rules again;
+an empty style rule and an `@media` rule around it are left out -/
+example : (pruneRules C02.Ex2.sheet.rules).toks = C02.Ex2.sheet.rules.toks := by decide +kernel
 example : (parseSheet C02.Ex2.O C02.Ex2.M (serialise C02.Ex2.sheet)).length = 8 := by decide +kernel
+example : serialise { rules := .cons (.media [] [] [identTok [0x61]] [] []
+    (.cons (.style { first := [identTok [0x62]] } {}) [] .nil)) [] .nil } = [eofTok] := by decide +kernel
 
 end CssVerif.C03
